@@ -13,6 +13,7 @@ import PyOak.Handle.SerOpts
 import PyOak.Handle.LegacyC20
 import PyOak.Handle.Visitor
 import PyOak.Handle.Accessors
+import PyOak.Handle.Pattern
 open PyOak PyOak.Sexp
 
 def dispatch (s : Sexp) : Sexp :=
@@ -36,6 +37,7 @@ def dispatch (s : Sexp) : Sexp :=
       else if cmd == "transform" then handleTransform args
       else if cmd == "dispatch" then handleDispatch args
       else if cmd.startsWith "acc-" then handleAccessors cmd args
+      else if cmd == "pmatch" || cmd == "pmulti" || cmd == "pcompile" then PM.handlePattern cmd args
       else none
     match r with
     | some x => x
